@@ -187,6 +187,20 @@ func calleeShortName(c *ssa.CallCommon) string {
 		return v.Name()
 	case *ssa.MakeClosure:
 		return v.Fn.(*ssa.Function).Name()
+	case *ssa.Parameter:
+		return v.Name()
+	case *ssa.FreeVar:
+		return v.Name()
+	case *ssa.UnOp:
+		// a function value read from a variable: named after the variable
+		switch x := v.X.(type) {
+		case *ssa.FreeVar:
+			return x.Name()
+		case *ssa.Alloc:
+			if x.Comment != "" {
+				return x.Comment
+			}
+		}
 	}
 	return "dynamic"
 }
